@@ -78,9 +78,23 @@ def render(model, output: str, inputs: dict[str, str]) -> str:
                     return const(a.t)
             raise Unsupported("Constant without value")
         if op == "Slice":
+            if len(n.input) == 3 and "" not in n.input:
+                return "(Slice3 " + " ".join(args()) + ")"
             if len(n.input) != 5 or "" in n.input:
                 raise Unsupported("Slice with omitted inputs")
             return "(Slice " + " ".join(args()) + ")"
+        if op == "Compress":
+            if attr(n, "axis") != 0:
+                raise Unsupported("Compress with axis != 0")
+            return "(Compress0 " + " ".join(args()) + ")"
+        if op == "GatherElements":
+            if attr(n, "axis", 0) != 0:
+                raise Unsupported("GatherElements with axis != 0")
+            return "(GatherElements0 " + " ".join(args()) + ")"
+        if op == "ScatterND":
+            if attr(n, "reduction", "none") != "none":
+                raise Unsupported("ScatterND with a reduction")
+            return "(ScatterND " + " ".join(args()) + ")"
         if op == "Gather":
             return f"(Gather {attr(n, 'axis', 0)} " + " ".join(args()) + ")"
         if op in ("Unsqueeze", "Squeeze", "Expand", "Range", "Where", "Not"):
@@ -97,8 +111,11 @@ def render(model, output: str, inputs: dict[str, str]) -> str:
                 raise Unsupported("Reshape allowzero=0")
             return "(Reshape " + " ".join(args()) + ")"
         if op == "Shape":
-            if attr(n, "start", 0) != 0 or attr(n, "end") is not None:
-                raise Unsupported("Shape with start/end")
+            start = attr(n, "start", 0)
+            if attr(n, "end") is not None or start < 0:
+                raise Unsupported("Shape with end / negative start")
+            if start > 0:
+                return f"(ShapeFrom {start} " + " ".join(args()) + ")"
             return "(Shape " + " ".join(args()) + ")"
         if op == "Cast":
             return f"(Cast {attr(n, 'to')} " + " ".join(args()) + ")"
@@ -108,9 +125,7 @@ def render(model, output: str, inputs: dict[str, str]) -> str:
             acc = a[0]
             for b in a[1:]:
                 acc = f"(Concat {ax} {acc} {b})"
-            if len(a) == 1:
-                raise Unsupported("unary Concat")
-            return acc
+            return acc          # a one-input Concat is the identity
         if op == "Mod":
             if attr(n, "fmod", 0) != 0:
                 raise Unsupported("Mod fmod=1")
